@@ -5,8 +5,8 @@ R=$1; N=${2:-4}
 ls $R/C*.out/*/patch.diff > build/seeds_list.txt
 for k in $(seq 0 $((N-1))); do
   (
-    export VERIF_BUILD=/verif/build/shard$k; mkdir -p $VERIF_BUILD
-    out=build/seeds_$k.log; : > $out
+    export VERIF_BUILD=/verif/build/shard$((k+${SHARD_BASE:-0})); mkdir -p $VERIF_BUILD
+    out=build/seeds${SHARD_BASE:-0}_$k.log; : > $out
     awk -v n=$N -v k=$k 'NR % n == k' build/seeds_list.txt | while read p; do
       c=$(echo $p | sed 's|.*/\(C[0-9][0-9]\)\.out/.*|\1|')
       echo "== $p prop: $c" >> $out
@@ -15,5 +15,5 @@ for k in $(seq 0 $((N-1))); do
   ) &
 done
 wait
-cat build/seeds_[0-9]*.log > build/seeds.log
+cat build/seeds${SHARD_BASE:-0}_[0-9]*.log > build/seeds.log
 grep -c "^== " build/seeds.log
